@@ -152,8 +152,9 @@ theorem remove_unlocked_refines {c : CW} {s : WS} (hi : Inv c) (hb : Bounds c) (
     have hs : s.step info (Op.mapRef (ordOf iss) (.remove t e comp)) =
         (s.setEnt k (some { ent with comps := rebuild info (ent.comps.filter (·.1 != comp)) tm [] }), .ok,
           cbDiff info k (w.arch pi).mask tm) := by
+      have hcn : tm.contains comp = false := by simpa using hcnt
       simp only [Op.mapRef, WS.step, hnl, if_false, hord2, WS.doRemove, hal, hcs, hcc, Bool.not_true, Bool.false_eq_true,
-        hafter, hbne]
+        hafter, hbne, hcn]
     have hcomps : rebuild info (ent.comps.filter (·.1 != comp)) tm [] =
         (w2.arch (w.getArch m (w.arch pi).shared).2).mask.zip (carry info tm (w.arch pi).mask prow []) := by
       rw [hmask]
